@@ -122,7 +122,7 @@ class FindByGlob(Finder):
             founds.extend(self.star_search([Sid(ssid)], as_sid=False))
             debug("star read done")
 
-        founds = sorted(list(set(founds)), reverse=True)
+        founds = sorted(set(founds), key=lambda x: x.split("/"), reverse=True)
         # TODO: sort by row - and resort after each narrowing
         # pprint(founds)
         debug("found {} matches".format(len(founds)))
